@@ -1,5 +1,5 @@
 TR = "internal/tracer"
-H = ["tracer/c16_test.go", "connectconformance/gateutil_test.go@tracer"]
+H = ["tracer/c16_test.go", "tracer/c16_middleware_test.go", "connectconformance/gateutil_test.go@tracer"]
 
 CHECK = {
     "level": "model_checking",
@@ -22,12 +22,16 @@ CHECK = {
          "shards": {"quick": 16, "thorough": 16}, "budget_s": {"quick": 60, "thorough": 900}},
         {"name": "c16-builder", "pkg": TR, "rewrite": [TR], "harness": H, "test": "^TestVerifC16Builder$", "gomaxprocs": 1,
          "shards": {"quick": 16, "thorough": 16}, "budget_s": {"quick": 60, "thorough": 900}},
+        {"name": "c16-middleware", "pkg": TR, "rewrite": [TR], "harness": H, "test": "^TestVerifC16Middleware$", "gomaxprocs": 1,
+         "shards": {"quick": 16, "thorough": 16}, "budget_s": {"quick": 60, "thorough": 600}},
         {"name": "c16-programs-unlockgates", "pkg": TR, "rewrite": [TR], "harness": H, "test": "^TestVerifC16Programs$", "gomaxprocs": 1,
          "tiers": ["thorough"], "env": {"VERIF_GATE_UNLOCK": "1", "VERIF_TIER_OVERRIDE": "quick"},
          "shards": {"quick": 16, "thorough": 16}, "budget_s": {"quick": 60, "thorough": 240}},
         {"name": "c16-builder-unlockgates", "pkg": TR, "rewrite": [TR], "harness": H, "test": "^TestVerifC16Builder$", "gomaxprocs": 1,
          "tiers": ["thorough"], "env": {"VERIF_GATE_UNLOCK": "1", "VERIF_TIER_OVERRIDE": "quick"},
          "shards": {"quick": 16, "thorough": 16}, "budget_s": {"quick": 60, "thorough": 240}},
+        {"name": "c16-middleware-race", "pkg": TR, "harness": H, "test": "^TestVerifC16MiddlewareRace$", "race": True, "tiers": ["thorough"],
+         "shards": {"quick": 8, "thorough": 16}, "budget_s": {"quick": 60, "thorough": 600}},
         {"name": "c16-race", "pkg": TR, "harness": H, "test": "^TestVerifC16Race$", "race": True, "tiers": ["thorough"],
          "shards": {"quick": 8, "thorough": 16}, "budget_s": {"quick": 60, "thorough": 600}},
     ],
